@@ -38,8 +38,8 @@ def check(prop, spec, tier):
     work = os.path.join(run.OUT, prop, "work")
     shutil.rmtree(work, ignore_errors=True)
     os.makedirs(work, exist_ok=True)
-    shards = 4 if tier == "quick" else 12
-    cases = 20000 if tier == "quick" else 400000
+    shards = 8 if tier == "quick" else 12
+    cases = 100000 if tier == "quick" else 400000
     procs = []
     exes = {c: build_pure(c) for c in CONFIGS}
     build_s = time.time() - t0
